@@ -194,6 +194,14 @@ func (a *Attributes) XXX_UnmarshalByFlags(flags uint32, buf *Buffer) (err error)
 	if a.Flags&AttrExtended != 0 {
 		count := buf.ConsumeCount()
 
+		// Each extended attribute occupies at least 8 bytes (two length-prefixed strings),
+		// so a count that the remaining data cannot satisfy is malformed.
+		// Do not let it drive the allocation below.
+		if count < 0 || count > buf.Len()/8 {
+			buf.Err = ErrShortPacket
+			return buf.Err
+		}
+
 		a.ExtendedAttributes = make([]ExtendedAttribute, count)
 		for i := range a.ExtendedAttributes {
 			a.ExtendedAttributes[i].UnmarshalFrom(buf)
